@@ -146,3 +146,18 @@ check('C11',
       technique='AST -> SMT-LIB (QF_BV + FP) kernel translation decided by z3, '
                 'plus bounded symbolic execution of Store.divide with z3 '
                 'deciding every claim')
+check('C13',
+      'The real ParallelProcess / _handle_parallel_process / Engine.end / '
+      'Store deletion code runs on an in-process transport stub with strict '
+      'hand-off; which processes and steps are parallel, the schedule '
+      '(symbolic timesteps so that idle / same-batch / in-flight arise as '
+      'arithmetic cases), the operation (delete, divide with parallel '
+      'daughters, move) and the stop point (end after an unforced run_for, '
+      'after update, twice, engine dropped) are explored exhaustively; each '
+      'path runs the all-serial twin and the solver shows equal rows and '
+      'final state; protocol errors, hangs, uncollected results and workers '
+      'not stopped are per-path facts.',
+      'transport contract of the stub (ordered delivery, recv on empty pipe = '
+      'hang, join iff target returned); no pickling; OS process management '
+      'outside; counterexamples of the pending kind were confirmed with the '
+      'real multiprocessing transport by hand')
